@@ -24,6 +24,10 @@ Init == /\ b \in 1..Len(Base) /\ d \in 0..(IF MaxDia = 0 THEN 0 ELSE Len(Dia)) /
            \* nothing learnt on a segment that fails may reach the next one
            \/ shape = "combo" /\ kind = "f" /\ d = 0 /\ b % AlphaStride = Seed % AlphaStride
               /\ x \in 1..NFeat /\ g = ((x + 5) % NFeat) + 1 /\ inv \in BOOLEAN /\ pos \in BOOLEAN
+           \* a matrix naming a length change AND a feature, on the word-initial unit of `target(s) + partner` in ONE syllable: the unit changes
+           \* length (inv: long -> [-long], otherwise short -> [+long]) and takes the feature; the partner after it is not matched and keeps everything
+           \/ shape = "lenmix" /\ kind = "f" /\ d = 0 /\ b % AlphaStride = Seed % AlphaStride
+              /\ x \in 1..NFeat /\ g = 0 /\ inv \in BOOLEAN /\ pos \in BOOLEAN
 
 \* the marker used by the "match" shape flips the voicing of the segment, so that a match is visible in the bundle
 Marker(s) == SetFeat(s, F_VOICE, ~Bit(s.lar, 4))
@@ -38,6 +42,7 @@ Outcome(s) ==
     [] shape = "match" /\ kind = "n" -> <<"ok", IF MatchNode(s, NodeTab[x], pos) THEN Marker(s) ELSE s>>
     [] shape = "alpha"               -> <<"ok", AlphaCopy(s, x, g, inv)>>
     [] shape = "combo"               -> <<"ok", Combo(s)>>
+    [] shape = "lenmix"              -> <<"ok", SetFeat(s, x, pos)>>
 
 Next == res = <<>> /\ res' = Outcome(Target(b, d)) /\ UNCHANGED <<b, d, shape, kind, x, pos, g, inv>>
 
